@@ -439,6 +439,13 @@ def check_rle(rep, ix):
     ok = ok and bool(body) and body[0] in (f'{fr},v=r.tellLrForFrame({fr})', f'({fr},v)=r.tellLrForFrame({fr})') and \
         any(_n(x.value) == f'(v[0],{fr})' for x in common.returns_of(f) if x.value is not None)
     rep.ob('R-C06-LOCAL', f'{RL}:RLEType01.tellLrForFrame', 'frame lookup walks the runs in order, carrying the remaining frame number, and returns (record position, offset)', ok, found=str(body), node=f, module=m)
+    # bytes after the last selected channel of a frame are skipped whenever there are any: a skip event for every size above 0
+    rf = ix.get_func(TP, 'FrameSetPlan._retFrameEvents')
+    tm = ix.module(TP)
+    post = [n for n in walk_no_nested(rf) if isinstance(n, ast.If) and any(isinstance(x, ast.Return) and 'EVENT_SKIP' in _n(x) for x in n.body)]
+    ok = len(post) == 1 and isinstance(post[0].test, ast.Compare) and show(nf(post[0].test)) in (common.nfs(f'{_n(post[0].test.left)} > 0'), common.nfs(f'{_n(post[0].test.left)} >= 1'), common.nfs(f'{_n(post[0].test.left)} != 0'))
+    rep.ob('R-C06-LOCAL', f'{TP}:FrameSetPlan._retFrameEvents', 'the rest of a frame after the last selected channel is skipped for every size above 0', ok,
+           found=_n(post[0].test) if post else f'{len(post)} guarded skip return(s)', required='siz > 0', node=post[0] if post else rf, module=tm)
     # last X of a log pass = X of the last record + (frames in that last record - 1) x spacing: the last run's own frame count
     # (a short last record has fewer frames than the first)
     xl = ix.find_func(RL, 'RLEType01.xAxisLastFrame')
